@@ -23,6 +23,8 @@ def gen_cases(ctx):
         cases.append(g.straddle())
     for _ in range(n_ovf):
         cases.append(g.overflow())
+    for _ in range(max(2, n_str // 2)):
+        cases.append(g.partial())
     return cases
 
 
@@ -122,7 +124,7 @@ def render_session(ids, rd, sess):
 
 def run(ctx):
     vlib.regen(ctx)
-    vlib.prove(ctx, extra_targets=["model/SyncCases.vo"])
+    vlib.prove(ctx, extra_targets=["model/SyncCases.vo", "proofs/SyncWfCheck.vo"])
     binp = vlib.cargo_build(ctx, "hx-sync", bin="c17")
     if not binp:
         return
@@ -139,7 +141,7 @@ def run(ctx):
     stats = {"sessions": 0, "responses": 0, "commands_sent": 0, "failed_attempts": 0, "exact_fit_polls": 0, "straddling_resumes": 0,
              "sessions_over_100_segments": 0, "sessions_multi_response": 0, "sample_full": 0, "overflow_errors": 0,
              "multi_head_responders": 0, "merge_commands_sent": 0, "single_response_sessions": 0, "retry_then_success": 0,
-             "libc_worlds": 0, "kinds": {}}
+             "libc_worlds": 0, "have_inside_segment": 0, "kinds": {}}
     wf_bad = []
     retry_bad = []
     for ci, case in enumerate(cases):
@@ -200,6 +202,8 @@ def run(ctx):
             stats["multi_head_responders"] += 1 if len(rd["heads"]) > 1 else 0
             stats["merge_commands_sent"] += sum(1 for c in stream if c["prio"] == "M")
             tips = {s["cmds"][-1]["id"] for s in rd["segs"]}
+            com_rd = S.committed(rd)
+            stats["have_inside_segment"] += 1 if any(x[0] in com_rd and x[0] not in tips for x in sess["sample"]) else 0
             stats["straddling_resumes"] += sum(1 for m in resp[:-1] if m["cmds"] and m["cmds"][-1]["id"] not in tips)
     # ---- model side: the same sessions evaluated in Coq on the dumped layouts
     def render(chunk):
@@ -208,10 +212,10 @@ def run(ctx):
         for k, (ci, si, rd, sess, op) in enumerate(chunk):
             ids = S.Ids(S.dump_ids(rd) + [a[0] for a in sess["sample"]])
             st, sid, sample, tl, xs = render_session(ids, rd, sess)
-            defs.append("Definition st%d := %s.\nDefinition c%d := check_session true st%d 1 %d 0 %s %s %s && store_wfb st%d.\n" % (k, st, k, k, sid, sample, tl, xs, k))
+            defs.append("Definition st%d := %s.\nDefinition c%d := check_session true st%d 1 %d 0 %s %s %s && wf_storeb st%d.\n" % (k, st, k, k, sid, sample, tl, xs, k))
             names.append("c%d" % k)
         return "".join(defs) + "Eval vm_compute in (mismatches (fun b : bool => b) %s).\n" % vlib.coq_list(names)
-    outs, chunks = vlib.coq_eval_sharded(ctx, "c17", S.COQ_HEADER, items, render, shard=max(4, len(items) // 12 + 1), timeout=1500)
+    outs, chunks = vlib.coq_eval_sharded(ctx, "c17", S.COQ_HEADER.replace("model.SyncCases.", "model.SyncCases proofs.SyncWfCheck."), items, render, shard=max(4, len(items) // 12 + 1), timeout=1500)
     mism = []
     base = 0
     for (rc, o), ch in zip(outs, chunks):
